@@ -56,6 +56,9 @@ func cmdVerify(args []string) {
 		os.Exit(2)
 	}
 	fmt.Printf("loaded in %.1fs, %d contracts\n", time.Since(t0).Seconds(), len(w.contracts))
+	for _, e := range w.protoErrs {
+		fmt.Println("PROTOCOL close-only discipline broken:", e)
+	}
 	re := regexp.MustCompile(*fre)
 	var keys []string
 	for k, fc := range w.contracts {
